@@ -507,8 +507,12 @@ def c04_oracle(case, r):
     if oc[0] == "rejected":
         hits.append(("valid-graph-rejected", "a valid dependency graph was rejected: %s" % (oc[2][:200],)))
         return hits
-    if oc[0] != "returned" or not r.get("report"):
+    died = case.get("base_exception") and oc[0] == "raised" and oc[1] == "LemoncheesecakeException" and \
+        "Error(s) while running tasks" in (oc[2] if len(oc) > 2 else "") and r.get("report")
+    if (oc[0] != "returned" or not r.get("report")) and not died:
         return hits + _abnormal_end(oc, "the tests are not accounted for")
+    # (died: user code raised a BaseException -- sys.exit() -- so the run ends with the runner's "Error(s) while running tasks";
+    #  what was executed and reported until then is judged like any other run: a test that died is not a successful dependency)
     trans, direct = transitive_deps(pd)
     status = dict(report_tests(r["report"]))
     details = {}
@@ -545,7 +549,9 @@ def c04_oracle(case, r):
         if bad and status.get(t) not in ("skipped", "disabled"):
             hits.append(("not-skipped-despite-failed-dependency", "test %s has status %s although its dependency %s is %s" % (
                 t, status.get(t), bad[0], status.get(bad[0]))))
-        if bad and status.get(t) == "skipped" and not details.get(t):
+        if bad and status.get(t) == "skipped" and not details.get(t) and not died:
+            # (not in a run that died: a dependency that left through sys.exit() has neither passed nor failed, the runner has no
+            #  reason to pass on and reports the escaped exception itself when the run ends)
             hits.append(("skipped-without-reason", "test %s was skipped because of %s but carries no reason" % (t, bad[0])))
     seen, out = set(), []
     for sig, text in hits:
